@@ -14,7 +14,7 @@ KEYS = {"NOTONCE": "a suspended task did not continue exactly once", "TWICE": "a
 
 
 def pdesc(c):
-    return "seed %d, task_arena(%d), %d suspending tasks, resume from %s%s" % (c[0], c[1], c[2], ["callback/foreign thread/task (mixed)", "the suspend callback", "a foreign thread", "another task"][c[3]], ", nested suspensions" if c[4] else "")
+    return "seed %d, task_arena(%d), %d suspending tasks, resume from %s%s" % (c[0], c[1], c[2], ["callback/foreign thread/task (mixed)", "the suspend callback", "a foreign thread", "another task", "a foreign thread 1-40 ms later (the suspending thread has gone to sleep)"][c[3]], ", nested suspensions" if c[4] else "")
 
 
 def oracle(c, toks):
@@ -46,6 +46,11 @@ def run(ctx):
     ctx.rules.append("suspend: arenas of 1-8 threads (1 = owner recall), 1-200 tasks each suspending once or twice (nested), resumed from the callback itself, from a foreign thread after a "
                      "seeded 0-20k-iteration delay (races with the stack switch), or from another task; predicate = exactly one continuation, never two threads on the stack, wait covers suspended tasks, no hang")
     oracle_tie(ctx, "suspend", exe, [], cases, oracle, describe=pdesc, bucket=lambda c: "suspend P=%d mode=%d" % (c[1], c[3]), timeout=900)
+    late = [[ctx.seed * 1000 + 500000 + i, P, n, 4, nest] for i, (P, n, nest) in enumerate(
+        [(1, 1, 0), (1, 2, 0), (1, 1, 1), (1, 3, 1), (2, 1, 0), (2, 3, 1), (4, 2, 0), (1, 8, 0)] * ctx.scale(1, 6))]
+    ctx.rules.append("suspend-late: the resume comes from a foreign thread 1-40 ms after the suspension, when the suspending thread has run out of work and sleeps; "
+                     "arena(1) has no worker at all, so only the arena's own wake-up can deliver the resume")
+    oracle_tie(ctx, "suspend-late", exe, [], late, oracle, describe=pdesc, bucket=lambda c: "suspend-late P=%d" % c[1], timeout=900)
 
 
 def replay(ctx, rep):
